@@ -34,6 +34,9 @@ func (p *c01) Case(i int) fw.Case {
 	if i%20 == 9 {
 		return fw.Case{Kind: "late-var", P: map[string]string{"n": fmt.Sprint(p.rnd(i).Range(1, 90))}}
 	}
+	if i%20 == 19 {
+		return fw.Case{Kind: "init-order", P: map[string]string{"n": fmt.Sprint(p.rnd(i).Range(1, 90))}}
+	}
 	if i%5 == 4 {
 		r := p.rnd(i)
 		t := r.Intn(len(constConvTemplates))
@@ -94,6 +97,13 @@ func (p *c01) Run(c fw.Case, r *fw.Rec) {
 		src = "package main\n\nimport \"fmt\"\n\nfunc main() {\n\tbase := \"s\"\n\tfmt.Println(base, total)\n}\n\nvar total = base + " + c.P["n"] + "\n\nvar base = 41\n"
 		info["probe"] = "late-package-var-initializer"
 		r.Cover("kind:late-package-var-probe")
+	}
+	if c.Kind == "init-order" {
+		// independent package-level variables with side-effecting initialisers, referenced from main in another
+		// order than they are declared: Go initialises them in declaration order
+		src = "package main\n\nimport \"fmt\"\n\nfunc f(s string, n int) string {\n\tfmt.Println(\"init\", s, n)\n\treturn s\n}\n\nvar a = f(\"a\", " + c.P["n"] + ")\n\nfunc main() {\n\tfmt.Println(c, b, a)\n}\n\nvar b = f(\"b\", 2)\n\nvar c = f(\"c\", 3)\n"
+		info["probe"] = "package-var-initialisation-order"
+		r.Cover("kind:init-order-probe")
 	}
 	if c.Kind == "constconv" {
 		var id string
